@@ -1106,6 +1106,7 @@ func checkConverterPairs(c *Ctx, r *Rec, fr *fmtRoles, st *scanTables) {
 			fmt.Sprintf("emitted %v, scanned %v, dispatched %v must be one set: a collection of a kind missing on one side does not survive the round trip", e, scanned, d))
 	}
 	r.floor("D2-converter-pairs", 7)
+	checkUnquotedTextKept(c, r, "D2-unquoted-text-kept", "cdcn")
 }
 
 // ---------------------------------------------------------------- D3 purity
